@@ -58,6 +58,10 @@ Clauses(o, ev, o2, p) ==
                                    /\ (App(o, a).recvd # Req(o, a).total \/ App(o, a).ended = 0)))
             IN (IF \E a \in DOMAIN o.reqs : Lost(a) THEN <<F("bytes-lost", o.cfg.opening)>> ELSE <<>>)
             \o (IF o.cfg.opening = "h2c" /\ ~p.sawSwitch /\ ~o.cerr THEN <<F("h2c-handover", "no-101")>> ELSE <<>>)
+            \o (IF o.cfg.opening = "h2c" /\ p.sawSwitch /\ ~o.cerr /\ ~o.reset /\ ~o.tfail
+                   /\ \E a \in DOMAIN o.reqs : /\ Req(o, a).idx = 1 /\ App(o, a).final /\ App(o, a).sendExc = 0
+                                                /\ App(o, a).done = "return" /\ Wire(o, a).ends = 0
+                THEN <<F("h2c-handover", "stream-1-unanswered")>> ELSE <<>>)
             \o (IF p.have /\ p.prev # Summary(o) THEN <<F("split-dependent", o.cfg.opening)>> ELSE <<>>)
       [] OTHER -> <<>>
 
